@@ -721,7 +721,7 @@ int __wrap_clock_gettime(clockid_t clk, struct timespec *ts) {
     if (!in_sim()) return __real_clock_gettime(clk, ts);
     World &w = *g_world;
     w.sched_point();
-    uint64_t t = w.node_time(w.cur_node_id());
+    uint64_t t = w.node_time_q(w.cur_node_id());
     ts->tv_sec = (time_t)(t / 1000000000ULL);
     ts->tv_nsec = (long)(t % 1000000000ULL);
     return 0;
